@@ -201,3 +201,20 @@ func nondetJSONMut(tag, base string, k, cap int) []byte {
 	s, _ := v.(string)
 	return []byte(s)
 }
+
+// nondetOneOf: one of the '|'-separated literals (a single symbolic value in the engine, no path split).
+func nondetOneOf(tag string, lits string) string {
+	i := nondetInt(tag)
+	n := 0
+	start := 0
+	for j := 0; j <= len(lits); j++ {
+		if j == len(lits) || lits[j] == '|' {
+			if n == i {
+				return lits[start:j]
+			}
+			n++
+			start = j + 1
+		}
+	}
+	return lits[:0]
+}
